@@ -204,6 +204,11 @@ func init() {
 		pc.mu.Unlock()
 		bad := ""
 		sizes := []int{1, 2, 57, 200, upmtu, upmtu + 1, 3*upmtu + 5, frag, frag + 1, 2*frag + 3}
+		// every length up to one upstream fragment (each meets every label and dot position of the name layout), both directions
+		// (only for cases that ask for it - seed >= 1000 -, a sweep costs some hundred transfers)
+		for n := 3; seed >= 1000 && n < upmtu && n < 260; n++ {
+			sizes = append(sizes, n)
+		}
 		for i, n := range sizes {
 			if n <= 0 || n > 20000 {
 				continue
